@@ -31,6 +31,6 @@ Procedure per defect: start from a clean checkout (`git -C {wt} checkout -- .`; 
 
 Known limitations of the unchanged checkout (do not build on these; your demo must pass on the unchanged checkout): matmul with 1-d operands does not follow numpy; size-0 (empty) arrays lose their shape; repeat without an axis repeats along axis 0; power with non-integer exponents truncates them; a numpy scalar on the left of / % divmod dispatches to numeric division. On the unchanged checkout the test-suite fails exactly these 12 tests and no others: test_count_nonzero[numpoly|numpy], test_amax[numpoly|numpy], test_amin[numpoly|numpy], test_max[numpoly|numpy|method], test_min[numpoly|numpy|method] (their expectations are known to be wrong); with your change the outcome must be identical. Run the suite WITHOUT -x. Never use `git stash` (the stash is shared between all worktrees and other agents work concurrently); to compare with the unchanged checkout save your diff to a file and use `git checkout -- .`.
 
-This is a second round: the most obvious single-line slips at the central sites of this property have been tried already. Prefer defects that are subtler or sit in less obvious places: a second code path that is only taken for particular operand kinds, shapes, dtypes, option settings or name sets; state shared between two calls; a helper used by several functions; an interaction of two features; an order-of-operations change that only matters for particular inputs.
+This is a third round. Rounds 1 and 2 already produced, for the various properties of this library, defects of these kinds: off-by-one / skipped first or last term in a loop; the wrong option key (display_* instead of sort_*); numpy.resize instead of broadcasting; a permutation applied in the inverse direction; memoisation with an incomplete cache key; dtype casts and promotions (first operand's dtype, narrow integers, byte order); in-place updates of operands that are already aligned; early returns for "trivial" inputs (all-zero terms, constants, empty shapes); wrong axis normalisation for negative axes; text encodings and escaping; restore-on-exit paths that miss an exception class. Find something of a DIFFERENT kind, or in a different place: rarely used keyword arguments and call forms of a public function, the second of two code paths that are selected by operand kind / shape / dtype / number of indeterminates, helpers shared by several public functions (so the defect shows only through one of them), interactions of two global options, results that are views of (or share memory with) an argument and are modified later, iteration order of dicts/sets, reliance on the order of names, integer overflow in index arithmetic, numpy scalar vs 0-d array distinctions, etc.
 
 Final answer: a short report listing, for A and B: the files changed, a one-sentence description, what is needed to trigger it, and confirmation of the test-suite and demo results.""")
